@@ -466,7 +466,7 @@ pub struct EncCase {
 }
 
 fn enc_strategy(_t: Tier) -> BoxedStrategy<EncCase> {
-    (prop_oneof![3 => 1usize..=4, 1 => 5usize..=11], 1usize..=6, any::<u16>(), any::<bool>())
+    (prop_oneof![3 => 1usize..=4, 1 => 5usize..=11], prop_oneof![12 => 1usize..=6, 1 => 7usize..=40], any::<u16>(), any::<bool>())
         .prop_flat_map(|(p, bs, rraw, staircase)| {
             let n = (p * bs).max(2);
             let r = 1 + idx(rraw, (n - 1).min(8)); // 1 <= r <= n-1, so k >= 1
@@ -876,7 +876,7 @@ pub fn property() -> Property {
             }),
             Box::new(Sub {
                 name: "encode",
-                rule: "generated systematic H (k >= 1), optional puncturing pattern dividing n, input file of 0..=5 (one case in 13: 700..=3000, i.e. several I/O buffers) complete words plus 0..k-1 trailing bytes: the output file is exactly the concatenation of the (punctured) codewords of the library encoder, nothing more; bad pattern, missing input, missing alist, pattern not dividing n: non-zero status, no panic; non-trivial = at least one word",
+                rule: "generated systematic H (k >= 1, n = pattern length x block size up to 66, one case in 13 up to 440), optional puncturing pattern dividing n, input file of 0..=5 (one case in 13: 700..=3000, i.e. several I/O buffers) complete words plus 0..k-1 trailing bytes: the output file is exactly the concatenation of the (punctured) codewords of the library encoder, nothing more; bad pattern, missing input, missing alist, pattern not dividing n: non-zero status, no panic; non-trivial = at least one word",
                 cases: |t| t.pick(2_000, 40_000),
                 strategy: enc_strategy,
                 check: check_enc,
